@@ -31,7 +31,12 @@ def vg(R, exe, env, out_log, seed, filt, lens, timeout=3000):
     e = dict(os.environ); e.update(env)
     cmd = ["valgrind", "--tool=memcheck", "--track-origins=no", "--error-limit=no", "--num-callers=12", "--undef-value-errors=yes",
            "--partial-loads-ok=yes", "--log-file=" + out_log, exe, str(seed), filt] + [str(x) for x in lens]
-    r = subprocess.run(cmd, capture_output=True, text=True, env=e, timeout=timeout)
+    try:
+        r = subprocess.run(cmd, capture_output=True, text=True, env=e, timeout=timeout)
+    except subprocess.TimeoutExpired:
+        R.violation("an operation did not return under the monitor within %d s (%s)" % (timeout, os.path.basename(out_log)),
+                    {"cfg": os.path.basename(out_log), "log_tail": open(out_log, errors="replace").read()[-1500:] if os.path.exists(out_log) else ""}, name="hang")
+        raise vlib.Hang()
     return r
 
 
